@@ -44,6 +44,7 @@ type exec struct {
 }
 
 var caseSeq int
+var lastDir string
 
 func (P) NewExec() hx.Executor {
 	e := &exec{}
@@ -106,9 +107,13 @@ func (e *exec) Exec(op string) string {
 		if e.dir != "" {
 			os.RemoveAll(e.dir)
 		}
+		if lastDir != "" {
+			os.RemoveAll(lastDir)
+		}
 		caseSeq++
 		e.dir = filepath.Join(".", fmt.Sprintf("c13-%d-%d", os.Getpid(), caseSeq))
 		os.MkdirAll(e.dir, 0o755)
+		lastDir = e.dir
 		e.ctl = &appsim.CrashCtl{}
 		e.stateAt, e.utxoAt, e.txsAt = map[uint64]string{}, map[uint64]string{}, map[uint64][]common.Hash{}
 		if e.pr != nil && e.pr.ce.S != nil {
@@ -123,6 +128,28 @@ func (e *exec) Exec(op string) string {
 		return e.pruneOp(toks)
 	case "writes":
 		return fmt.Sprintf("writes=%d", e.lastWrites)
+	case "blockinfo":
+		// what the next block will carry: transactions, confidential inputs (key images), confidential outputs
+		if e.main.S == nil {
+			return "nochain"
+		}
+		txs, spends, outs := 0, 0, 0
+		for _, tx := range e.main.S.Simple.Txs {
+			txs++
+			if u, ok := tx.(*types.UTXOTransaction); ok {
+				for _, in := range u.Inputs {
+					if _, ok := in.(*types.UTXOInput); ok {
+						spends++
+					}
+				}
+				for _, o := range u.Outputs {
+					if _, ok := o.(*types.UTXOOutput); ok {
+						outs++
+					}
+				}
+			}
+		}
+		return fmt.Sprintf("txs=%d spends=%d outs=%d", txs, spends, outs)
 	case "writelog":
 		lo := len(e.ctl.Log) - e.lastWrites
 		if lo < 0 {
@@ -372,7 +399,7 @@ func (P) Generate(g *hx.Gen) {
 		// two funding blocks, then the block under test
 		ops = append(ops, fmt.Sprintf("ain from=0 w=0 amount=%d nonce=0", 30000000000+g.Rng.Intn(1000)*10000), "xfer from=1 to=2 amount=77 nonce=0", "block")
 		nonce[0], nonce[1] = 1, 1
-		ops = append(ops, fmt.Sprintf("uu w=0 in=0 to=1 amount=%d", 1+g.Rng.Intn(1000000)), fmt.Sprintf("call from=2 c=%d nonce=0", g.Rng.Intn(30)), "block")
+		ops = append(ops, fmt.Sprintf("uu w=0 in=0 to=1 amount=%d", 10000000000+g.Rng.Intn(1000000)), fmt.Sprintf("call from=2 c=%d nonce=0", g.Rng.Intn(30)), "block")
 		nonce[2] = 1
 		// the crashed block
 		rich := false
@@ -394,8 +421,10 @@ func (P) Generate(g *hx.Gen) {
 		for _, op := range ops {
 			hx.SafeExec(ex, op)
 		}
+		info := hx.SafeExec(ex, "blockinfo")
 		hx.SafeExec(ex, "block")
 		w := ex.lastWrites
+		seq := strings.TrimPrefix(hx.SafeExec(ex, "writelog"), "seq=")
 		hx.SafeExec(ex, "case")
 		os.RemoveAll(ex.dir)
 		g.Count(fmt.Sprintf("writes-per-commit:%d", w))
@@ -404,7 +433,7 @@ func (P) Generate(g *hx.Gen) {
 			step = w / 14
 		}
 		for at := 1; at <= w+1; at += step {
-			cops := append(append([]string{}, ops...), fmt.Sprintf("crashblock at=%d", at))
+			cops := append(append([]string{}, ops...), fmt.Sprintf("crashblock at=%d %s seq=%s", at, info, seq))
 			g.Count(fmt.Sprintf("mode:trie=%d", trie))
 			g.Case(fmt.Sprintf("crash trie=%d at=%d/%d", trie, at, w), cops, rich && at > 1 && at <= w)
 		}
